@@ -294,4 +294,115 @@ def run(ctx):
             short = f['q'].replace('simgrid::kernel::routing::', '')
             ctx.check(bool(sts) and not bad, 'R4', '%s: the scratch route `%s` is empty at each local lookup' % (short, rv[2]), where(f), bad[0] if bad else '', key='R4|%s|fresh %s' % (short, rv[2]))
     ctx.require(n4 >= 3, 'R4', 'only %d scratch routes found' % n4)
+    run_symmetrical(ctx, P, A)
     return EXPLANATION
+
+
+def run_symmetrical(ctx, P, A):
+    """R5: what add_route stores for a route declared symmetrical"""
+    ctx.rule('R5', 'add_route of Full, Floyd and Dijkstra zones: the declared direction is stored at (src, dst) with the link list as given and the gateways as given; '
+             'under `symmetrical` the opposite direction is stored at (dst, src) with the reversed link list and the gateways exchanged (Floyd: with predecessor = '
+             'the origin of the stored direction, and the same cost)', 6)
+    RTQ = 'simgrid::kernel::routing::'
+
+    def strip(t):
+        while t[0] in ('cast', 'conv') or (t[0] == 'ctor' and len(t[2]) == 1):
+            t = t[2] if t[0] != 'ctor' else t[2][0]
+        return t
+
+    def endpoint(t):
+        t = strip(t)
+        if t[0] == 'call' and t[1].endswith('NetPoint::id') and t[2] is not None and strip(t[2])[0] == 'var':
+            return strip(t[2])[2]
+        return None
+
+    def cell(t):
+        """(table field, row endpoint, column endpoint) of `table_[a->id()][b->id()]`"""
+        t = strip(t)
+        if t[0] == 'call' and t[1].endswith('::operator[]') and t[2] is not None:
+            inner = strip(t[2])
+            if inner[0] == 'call' and inner[1].endswith('::operator[]') and inner[2] is not None and strip(inner[2])[0] == 'field':
+                return (strip(inner[2])[2].rsplit('::', 1)[-1], endpoint(inner[3][0]), endpoint(t[3][0]))
+        return None
+
+    def route_args(t, env):
+        for x in ex.subterms(t):
+            if x[0] == 'call' and x[1].endswith('::new_extended_route') and len(x[3]) >= 4:
+                gws = []
+                for g in (x[3][1], x[3][2]):
+                    g = strip(g)
+                    gws.append(env.get(g, g)[2] if env.get(g, g)[0] == 'var' else ex.pretty(g))
+                rev = None
+                for y in ex.subterms(x[3][3]):
+                    if y[0] == 'call' and y[1].endswith('::get_link_list_impl') and len(y[3]) >= 2 and y[3][1][0] == 'bool':
+                        rev = y[3][1][1]
+                return gws[0], gws[1], rev
+        return None
+    nz = 0
+    for zone in ('FullZone', 'FloydZone', 'DijkstraZone'):
+        fs = [f for f in P.fns.values() if f['q'] == RTQ + zone + '::add_route' and f.get('blocks')]
+        if len(fs) != 1:
+            ctx.unrecognised('R5', '%s::add_route: %d definitions' % (zone, len(fs)))
+            continue
+        f = fs[0]
+        v = A.view(f)
+        seen = {}
+        for p in v.paths(max_visits=1):
+            if p.exit in ('noreturn', 'cut', 'throw'):
+                continue
+            evs = v.path_events(p)
+            env = {}
+            sym = None
+            gwboth = None
+            stores = []
+            preds = []
+            for e in evs:
+                if e.kind == 'branch':
+                    if e.atom == ('truthy', lib.parm(f, 'symmetrical')):
+                        sym = e.pol
+                    continue
+                if e.kind == 'assign' and strip(e.lhs)[0] == 'var' and strip(e.lhs)[1] in ('parm', 'local') and strip(e.rhs)[0] == 'var':
+                    env[strip(e.lhs)] = env.get(strip(e.rhs), strip(e.rhs))
+                    continue
+                ra = None
+                where_ = None
+                if e.kind == 'assign':
+                    c = cell(e.lhs)
+                    if c and route_args(e.rhs, env):
+                        ra, where_ = route_args(e.rhs, env), (c[1], c[2])
+                    elif c and c[0].startswith('predecessor'):
+                        preds.append(((c[1], c[2]), endpoint(e.rhs)))
+                elif e.kind == 'call' and e.q.endswith('unique_ptr<simgrid::kernel::routing::Route>::operator=') or (e.kind == 'call' and e.q.endswith('::operator=') and e.obj is not None and cell(e.obj)):
+                    c = cell(e.obj)
+                    if c and e.args and route_args(e.args[0], env):
+                        ra, where_ = route_args(e.args[0], env), (c[1], c[2])
+                elif e.kind == 'call' and e.q.endswith('::new_edge') and len(e.args) == 3 and route_args(e.args[2], env):
+                    ra, where_ = route_args(e.args[2], env), (endpoint(e.args[0]), endpoint(e.args[1]))
+                if ra:
+                    stores.append((where_, ra, e.line))
+            sig = (sym, tuple((w_, r_) for w_, r_, _ in stores), tuple(preds))
+            if sig in seen:
+                continue
+            seen[sig] = True
+            fw = [x for x in stores if x[0] == ('src', 'dst')]
+            bw = [x for x in stores if x[0] == ('dst', 'src')]
+            other = [x for x in stores if x[0] not in (('src', 'dst'), ('dst', 'src'))]
+            okf = len(fw) == 1 and fw[0][1] == ('gw_src', 'gw_dst', False) and not other
+            ctx.check(okf, 'R5', '%s::add_route: the declared direction is stored at (src, dst), links as given, gateways as given' % zone, where(f, fw[0][2] if fw else None),
+                      'stores: %s' % [(w_, r_) for w_, r_, _ in stores], key='R5|%s::add_route|declared direction' % zone)
+            same = any(e.kind == 'branch' and e.atom[0] == 'bin' and e.atom[1] == '==' and sorted(strip(x)[2] for x in (e.atom[2], e.atom[3]) if strip(x)[0] == 'var') == ['dst', 'src'] and e.pol for e in evs)
+            if sym and same:
+                ctx.check(not bw or okf, 'R5', '%s::add_route: a route from a point to itself has no opposite direction' % zone, where(f), '', key='R5|%s::add_route|loop route' % zone)
+            elif sym:
+                # when a gateway is null both are (checked by add_route_check_params): an unswapped pair of null gateways is the same pair
+                okb = len(bw) == 1 and bw[0][1][2] is True and (bw[0][1][:2] == ('gw_dst', 'gw_src') or (bw[0][1][:2] == ('gw_src', 'gw_dst') and any(
+                    e.kind == 'branch' and e.atom[0] == 'truthy' and strip(e.atom[1])[0] == 'var' and strip(e.atom[1])[2] in ('gw_src', 'gw_dst') and not e.pol for e in evs)))
+                ctx.check(okb, 'R5', '%s::add_route: a symmetrical route is also stored at (dst, src), links reversed, gateways exchanged' % zone, where(f, bw[0][2] if bw else None),
+                          'stores for the opposite direction: %s' % [(w_, r_) for w_, r_, _ in bw], key='R5|%s::add_route|opposite direction' % zone)
+                nz += 1
+            elif sym is False:
+                ctx.check(not bw, 'R5', '%s::add_route: nothing is stored at (dst, src) for a one-way route' % zone, where(f), '', key='R5|%s::add_route|one way' % zone)
+            if preds:
+                okp = all(p_[1] == p_[0][0] for p_ in preds)
+                ctx.check(okp, 'R5', '%s::add_route: predecessor[a][b] = a for each stored direction' % zone, where(f), '%s' % preds, key='R5|%s::add_route|predecessor' % zone)
+    ctx.require(nz >= 3, 'R5', 'symmetrical paths of the three add_route not all recognised (%d)' % nz)
